@@ -500,10 +500,9 @@ pub fn run_c12(ctx: &mut Ctx) {
             let Ok(li) = k.parse::<unic_langid_impl::LanguageIdentifier>() else { continue };
             for which in 0..2 {
                 let mut x = li.clone();
-                if which == 0 {
-                    x.maximize();
-                } else {
-                    x.minimize();
+                if crate::mon::guard(|| if which == 0 { x.maximize() } else { x.minimize() }).is_err() {
+                    ctx.count("setup: maximize/minimize panicked (value skipped)");
+                    continue;
                 }
                 let a = Locale::from(x);
                 let Ok(twin) = a.to_string().parse::<Locale>() else { continue };
